@@ -1,8 +1,14 @@
 /- C02 — serializeJson emits exactly the document, on every kind of destination.
-   This file: the bounded-buffer contract (for every text and capacity) and digit-exact integer printing.
-   The RFC 8259 well-formedness of the produced text is tied by the correspondence + an independent parser (see DESIGN.md). -/
+   This file: the bounded-buffer contract (for every text and capacity); the pretty text with its insignificant
+   whitespace removed is the compact text (`pretty_strip`); and the RFC 8259 part: the compact and the pretty text are
+   JSON texts of the relational grammar `Spec.Json.Value` and denote exactly the document (`string_in_grammar`,
+   `int_in_grammar`, `float_in_grammar`, `compact_in_grammar`, `pretty_in_grammar`, `compact_parses_back`), with the
+   known finding `control_characters_not_escaped`. The composition with the parser's completeness theorem
+   `C01.valid_json` (also for the pretty text) is in AJ/Props/C02Parse.lean. -/
 import AJ.Model.JSer
 import AJ.Lemmas.Strip
+import AJ.Lemmas.SerGrammar
+import AJ.Props.C07
 namespace C02
 open JSer
 
@@ -106,5 +112,306 @@ example : stripWs (pretty {} 0 sampleDoc) = compact {} sampleDoc :=
 -- the scanner itself on explicit bytes:  [ 1 , "a b\" c" ]  ->  [1,"a b\" c"]
 example : stripWs [0x5B, 0x20, 0x31, 0x0A, 0x2C, 0x09, 0x22,0x61,0x20,0x62,0x5C,0x22,0x20,0x63,0x22, 0x0D, 0x5D] =
     [0x5B, 0x31, 0x2C, 0x22,0x61,0x20,0x62,0x5C,0x22,0x20,0x63,0x22, 0x5D] := by decide
+
+/-! ## The text is a JSON text of RFC 8259 and denotes exactly the document
+
+`Spec.Json.Value cfg L t d` (AJ/Spec/Json.lean) is the grammar of RFC 8259 as a relation between a text `t` and the
+document `d` it denotes; `JD.Body 0x22 body s` is the grammar of string bodies (§7) with the bytes they denote;
+`Spec.Json.NumLit` the grammar of numbers (§6) and `Spec.Json.numVal` their value. The proofs are in
+AJ/Lemmas/SerGrammar.lean. -/
+section Grammar
+open JD Spec.Json
+export SerG (PrintableByte Printable PrintableStrs PrintableS denote denoteE denoteM denoteNum denoteFloat)
+
+/-! ### strings -/
+
+/-- **Strings.** For every byte string without bare control characters (no byte in 0x01..0x1F other than BS, HT, LF, FF,
+    CR), what `writeString` puts between the quotes is an RFC string body, and it denotes exactly the source bytes:
+    every byte is preserved (`"` `\` BS HT LF FF CR as two-character escapes, NUL as `\u0000`, everything else —
+    0x7F and the bytes ≥ 0x80 of UTF-8 sequences included — copied). -/
+theorem string_in_grammar (s : List Byte) (h : Printable s) : Body 0x22 (s.flatMap writeChar) s :=
+  SerG.body_escaped s h
+
+/-- the whole literal, as a value -/
+theorem string_literal_in_grammar (cfg : Cfg) (L : Nat) (s : List Byte) (h : Printable s) (hl : s.length ≤ cfg.maxStrLen) :
+    Value cfg L (writeString s) (.str s) := SerG.value_str cfg L s h hl
+
+/-- **Finding (known): control characters are not escaped.** A byte in 0x01..0x1F that has no two-character escape
+    is copied as it is, and a text that starts with such a byte is not a string body of RFC 8259 (§7: "control
+    characters (U+0000 through U+001F) MUST be escaped"). -/
+theorem control_characters_not_escaped (c : Byte) (h1 : 0x01 ≤ c) (h2 : c ≤ 0x1F)
+    (h3 : c ∉ [0x08, 0x09, 0x0A, 0x0C, 0x0D]) :
+    writeChar c = [c] ∧ (¬ ∃ v, Body 0x22 (writeChar c) v) ∧ ∀ t v, ¬ Body 0x22 (writeChar c ++ t) v := by
+  have hw := SerG.writeChar_control h1 h2 h3
+  have hlt : c < 0x20 :=
+    UInt8.lt_iff_toNat_lt.mpr (by have := UInt8.le_iff_toNat_le.mp h2; simpa using Nat.lt_succ_of_le this)
+  refine ⟨hw, ?_, ?_⟩
+  · rintro ⟨v, hv⟩; rw [hw] at hv; exact SerG.body_no_control hlt [] v hv
+  · intro t v hv; rw [hw] at hv; exact SerG.body_no_control hlt t v hv
+
+/-- the hypothesis of `string_in_grammar` is exact: the text written for `s` is a string body of the RFC **iff**
+    `s` has no bare control character -/
+theorem string_in_grammar_iff (s : List Byte) : (∃ v, Body 0x22 (s.flatMap writeChar) v) ↔ Printable s :=
+  SerG.body_escaped_iff s
+
+/-- the same finding on a document: if the text of a string node is a JSON value at all, the string has no bare
+    control character (so `serializeJson` of `"\x01"` is not JSON) -/
+theorem control_characters_not_json (cfg : Cfg) (L : Nat) (s : List Byte) (d : Val)
+    (h : Value cfg L (compact cfg (.str s)) d) : Printable s := by
+  simp only [compact] at h; exact SerG.value_writeString_inv h
+
+/-! ### numbers -/
+
+/-- **Integers.** Every unsigned 64-bit integer and every signed integer in [-2^63, 2^64) is written as an RFC
+    number literal (optional minus, digits without leading zeros), whose value is the same integer, digit for digit
+    (`numVal` reads a literal without sign as unsigned: a non-negative signed integer comes back unsigned). -/
+theorem int_in_grammar (cfg : Cfg) :
+    (∀ n : Nat, n < 2 ^ 64 →
+      NumLit (JS.printNum cfg (.uint n)) ∧ numVal cfg (JS.printNum cfg (.uint n)) = .num (.uint n)) ∧
+    (∀ i : Int, -(2 ^ 63 : Int) ≤ i → i < 2 ^ 64 →
+      NumLit (JS.printNum cfg (.sint i)) ∧ numVal cfg (JS.printNum cfg (.sint i)) = C07.normInt (.num (.sint i))) := by
+  refine ⟨fun n h => ⟨SerG.numLit_uint cfg n h, SerG.numVal_uint cfg n h⟩, fun i h1 h2 => ⟨SerG.numLit_sint cfg i (by omega) h2, ?_⟩⟩
+  simp only [C07.normInt]
+  split
+  · rename_i h0; exact SerG.numVal_sint_nonneg cfg i h0 h2
+  · rename_i h0; exact SerG.numVal_sint_neg cfg i h1 (by omega)
+
+/-- the digits are those of the number: the literal is an optional `-` followed by THE decimal numeral of |i| -/
+theorem int_digits_exact (cfg : Cfg) (i : Int) :
+    ∃ ds, JS.printNum cfg (.sint i) = (if i < 0 then [0x2D] else []) ++ ds ∧ IntPart ds ∧ decVal ds = i.natAbs := by
+  refine ⟨JS.digits i.natAbs, rfl, SerG.intPart_digits_nat _, ?_⟩
+  rw [JD.decVal_eq]; exact (Digits.digits_spec _).2.1
+
+/-- **Floats.** The text of every finite float is an RFC number literal: integral part without leading zeros, at least
+    one digit after a decimal point, `e`, optional `-`, digits; at most 63 bytes. (`places` is 9 for `double`, 6 for
+    `float`.) -/
+theorem float_in_grammar (cfg : Cfg) (b places : Nat) (hp : places ≤ 46)
+    (h1 : SF.isNaN SF.b64 b = false) (h2 : SF.isInf SF.b64 b = false) : NumLit (JS.writeFloat cfg b places) :=
+  SerG.numLit_writeFloat cfg b places hp h1 h2
+
+/-- in the default configuration NaN and the infinities are written as `null` -/
+theorem nonfinite_is_null (cfg : Cfg) (b places : Nat) (hnan : cfg.nan = false) (hinf : cfg.inf = false)
+    (h : (SF.isNaN SF.b64 b || SF.isInf SF.b64 b) = true) : JS.writeFloat cfg b places = [0x6E, 0x75, 0x6C, 0x6C] :=
+  SerG.writeFloat_nonfinite cfg b places hnan hinf h
+
+/-- every number node (64-bit integer, `float`, `double`), in the default configuration: its text is a value of the
+    grammar that denotes `denoteNum`: the integer itself; for a finite float the value of its text as a number
+    literal; `null` for a non-finite float -/
+theorem number_in_grammar (cfg : Cfg) (hnan : cfg.nan = false) (hinf : cfg.inf = false) (L : Nat) (n : Num)
+    (hi : C07.IntOkS (.num n)) : Value cfg L (JS.printNum cfg n) (denoteNum cfg n) :=
+  SerG.value_num cfg L n (by cases n <;> first | exact hi | trivial)
+    (by cases n <;> first | trivial | exact Or.inl ⟨hnan, hinf⟩)
+
+/-! ### documents -/
+
+/-- **MAIN (serializeJson).** In the default configuration (`NaN`/`Infinity` options off), for every document `v` without
+    raw nodes, whose strings and keys have no bare control character and fit `cfg.maxStrLen`, whose integers are
+    64-bit, and whose nesting is at most `L`: the compact text is a JSON value of RFC 8259 — derived with EMPTY
+    whitespace everywhere — and it denotes `denote cfg v`: the same structure and order, strings and keys byte for
+    byte, integers digit-exact, each finite float as the value of its own literal, non-finite floats as `null`,
+    objects with `lastWins` applied to their members (the identity when keys are distinct: `denote_obj_nodup`). -/
+theorem compact_in_grammar (cfg : Cfg) (L : Nat) (v : Val) (hnan : cfg.nan = false) (hinf : cfg.inf = false)
+    (h1 : C07.RawFree v) (h2 : C07.IntsInRange v) (h3 : C07.StrsWithin cfg.maxStrLen v) (h4 : PrintableStrs v)
+    (hd : depth v ≤ L) : Value cfg L (compact cfg v) (denote cfg v) :=
+  SerG.compact_value cfg v L (SerG.ok_of cfg v h1 h2 h3 h4 (SerG.floatsOk_default cfg hnan hinf v h1)) hd
+
+/-- **MAIN (serializeJsonPretty).** The same for the pretty text, at every nesting level `n` of the printer (the 8-bit
+    wrap-around of the indentation counter is irrelevant: indentation and line ends are whitespace of the grammar). -/
+theorem pretty_in_grammar_at (cfg : Cfg) (n L : Nat) (v : Val) (hnan : cfg.nan = false) (hinf : cfg.inf = false)
+    (h1 : C07.RawFree v) (h2 : C07.IntsInRange v) (h3 : C07.StrsWithin cfg.maxStrLen v) (h4 : PrintableStrs v)
+    (hd : depth v ≤ L) : Value cfg L (pretty cfg n v) (denote cfg v) :=
+  SerG.pretty_value cfg v n L (SerG.ok_of cfg v h1 h2 h3 h4 (SerG.floatsOk_default cfg hnan hinf v h1)) hd
+
+theorem pretty_in_grammar (cfg : Cfg) (L : Nat) (v : Val) (hnan : cfg.nan = false) (hinf : cfg.inf = false)
+    (h1 : C07.RawFree v) (h2 : C07.IntsInRange v) (h3 : C07.StrsWithin cfg.maxStrLen v) (h4 : PrintableStrs v)
+    (hd : depth v ≤ L) : Value cfg L (pretty cfg 0 v) (denote cfg v) :=
+  pretty_in_grammar_at cfg 0 L v hnan hinf h1 h2 h3 h4 hd
+
+theorem floatsOk_of_finite (cfg : Cfg) (v : Val) (h : C07.FiniteFloats v) : SerG.FloatsOk cfg v := by
+  refine C07.AllV_mono (fun v hv => ?_) (fun _ _ => trivial) v h
+  cases v with
+  | num n =>
+    cases n with
+    | f32 b => exact Or.inr hv
+    | f64 b => exact Or.inr hv
+    | _ => trivial
+  | _ => trivial
+
+/-- **Any configuration, finite floats.** With the `NaN`/`Infinity` options on, the same holds for every document whose
+    floats are all finite (a non-finite float would be written `NaN`/`Infinity`, which is not JSON). -/
+theorem compact_in_grammar_finite (cfg : Cfg) (L : Nat) (v : Val) (hf : C07.FiniteFloats v)
+    (h1 : C07.RawFree v) (h2 : C07.IntsInRange v) (h3 : C07.StrsWithin cfg.maxStrLen v) (h4 : PrintableStrs v)
+    (hd : depth v ≤ L) : Value cfg L (compact cfg v) (denote cfg v) :=
+  SerG.compact_value cfg v L (SerG.ok_of cfg v h1 h2 h3 h4 (floatsOk_of_finite cfg v hf)) hd
+
+theorem pretty_in_grammar_finite (cfg : Cfg) (n L : Nat) (v : Val) (hf : C07.FiniteFloats v)
+    (h1 : C07.RawFree v) (h2 : C07.IntsInRange v) (h3 : C07.StrsWithin cfg.maxStrLen v) (h4 : PrintableStrs v)
+    (hd : depth v ≤ L) : Value cfg L (pretty cfg n v) (denote cfg v) :=
+  SerG.pretty_value cfg v n L (SerG.ok_of cfg v h1 h2 h3 h4 (floatsOk_of_finite cfg v hf)) hd
+
+/-- both texts are JSON texts (`Doc`: `ws value ws`) denoting the SAME document -/
+theorem both_denote_same (cfg : Cfg) (L : Nat) (v : Val) (hnan : cfg.nan = false) (hinf : cfg.inf = false)
+    (h1 : C07.RawFree v) (h2 : C07.IntsInRange v) (h3 : C07.StrsWithin cfg.maxStrLen v) (h4 : PrintableStrs v)
+    (hd : depth v ≤ L) : Doc cfg L (compact cfg v) (denote cfg v) ∧ Doc cfg L (pretty cfg 0 v) (denote cfg v) :=
+  ⟨⟨[], _, [], by simp, SerG.ws_nil, SerG.ws_nil, compact_in_grammar cfg L v hnan hinf h1 h2 h3 h4 hd⟩,
+   ⟨[], _, [], by simp, SerG.ws_nil, SerG.ws_nil, pretty_in_grammar cfg L v hnan hinf h1 h2 h3 h4 hd⟩⟩
+
+/-- what `denote` is: without floats and without repeated keys, the document itself (a non-negative signed integer
+    tagged unsigned) -/
+theorem denote_is_document (cfg : Cfg) (v : Val) (h1 : C07.NoFloat v) (h2 : C07.NoDupKeys v) :
+    denote cfg v = C07.normInt v := SerG.denote_eq_normInt cfg v h1 h2
+
+/-- with floats: an object with distinct keys denotes its members one for one, in order -/
+theorem denote_obj_nodup (cfg : Cfg) (ms : List (List Byte × Val)) (h : (ms.map (·.1)).Nodup) :
+    denote cfg (.obj ms) = .obj (denoteM cfg ms) := SerG.denote_obj_nodup cfg ms h
+
+/-- `denote` is the `readBack` of the round-trip property C07 -/
+theorem denote_is_readBack (cfg : Cfg) (v : Val) (hnan : cfg.nan = false) (hinf : cfg.inf = false)
+    (h0 : C07.RawFree v) (h : C07.IntsInRange v) : denote cfg v = C07.readBack cfg v :=
+  SerG.denote_eq_readBack cfg hnan hinf v h0 h
+
+theorem denote_is_readBack_finite (cfg : Cfg) (v : Val) (hf : C07.FiniteFloats v) (h : C07.IntsInRange v) :
+    denote cfg v = C07.readBack cfg v := SerG.denote_eq_readBack_of cfg v h (floatsOk_of_finite cfg v hf)
+
+/-- **Corollary: the deserializer reads the compact text back as the denoted document**, consuming all of it.
+    (Through the round-trip theorem `C07.json_roundtrip_all` and `denote_is_readBack`; the deserializer does not need
+    the strings to be free of control characters.) -/
+theorem compact_parses_back (cfg : Cfg) (L : Nat) (v : Val) (hu : cfg.decodeUnicode = true)
+    (hnan : cfg.nan = false) (hinf : cfg.inf = false)
+    (h1 : C07.RawFree v) (h2 : C07.IntsInRange v) (h3 : C07.StrsWithin cfg.maxStrLen v) (hd : depth v ≤ L) :
+    JD.run cfg L (compact cfg v) = (.ok, denote cfg v, (compact cfg v).length) := by
+  rw [denote_is_readBack cfg v hnan hinf h1 h2]
+  exact C07.json_roundtrip_all cfg L v hu hnan hinf h1 h2 h3 (by rw [SerG.depth_eq]; exact hd)
+
+
+/-- the same with any options, for documents whose floats are finite -/
+theorem compact_parses_back_finite (cfg : Cfg) (L : Nat) (v : Val) (hu : cfg.decodeUnicode = true)
+    (hf : C07.FiniteFloats v) (h1 : C07.RawFree v) (h2 : C07.IntsInRange v) (h3 : C07.StrsWithin cfg.maxStrLen v)
+    (hd : depth v ≤ L) :
+    JD.run cfg L (compact cfg v) = (.ok, denote cfg v, (compact cfg v).length) := by
+  rw [denote_is_readBack_finite cfg v hf h2]
+  exact C07.json_roundtrip_finite cfg L v hu hf h1 h2 h3 (by rw [SerG.depth_eq]; exact hd)
+
+/-! ### non-vacuity (explicit bytes) -/
+
+-- a"<LF><NUL>é<DEL>  is written  a\"\n\u0000é<DEL>  and that body denotes the seven source bytes
+example : Body 0x22 [0x61, 0x5C,0x22, 0x5C,0x6E, 0x5C,0x75,0x30,0x30,0x30,0x30, 0xC3,0xA9, 0x7F]
+    [0x61, 0x22, 0x0A, 0x00, 0xC3, 0xA9, 0x7F] :=
+  string_in_grammar [0x61, 0x22, 0x0A, 0x00, 0xC3, 0xA9, 0x7F] (by decide)
+
+-- the finding on 0x01, 0x0B (VT) and 0x1F
+example : writeChar 0x01 = [0x01] ∧ (¬ ∃ v, Body 0x22 (writeChar 0x01) v) :=
+  ⟨(control_characters_not_escaped 0x01 (by decide) (by decide) (by decide)).1,
+   (control_characters_not_escaped 0x01 (by decide) (by decide) (by decide)).2.1⟩
+example : ¬ ∃ v, Body 0x22 (writeChar 0x0B) v := (control_characters_not_escaped 0x0B (by decide) (by decide) (by decide)).2.1
+example : ¬ ∃ v, Body 0x22 (writeChar 0x1F) v := (control_characters_not_escaped 0x1F (by decide) (by decide) (by decide)).2.1
+-- `serializeJson` of the one-byte string "\x01" gives the three bytes `"`, 0x01, `"`, which is not a JSON value
+example : compact {} (.str [0x01]) = [0x22, 0x01, 0x22] := by decide +kernel
+example (L : Nat) (d : Val) : ¬ Value {} L [0x22, 0x01, 0x22] d := by
+  intro h
+  have := control_characters_not_json {} L [0x01] d (by rw [show compact {} (.str [0x01]) = [0x22, 0x01, 0x22] from by decide +kernel]; exact h)
+  exact absurd this (by decide)
+
+-- integers: 18446744073709551615 and -9223372036854775808
+example : NumLit [0x31,0x38,0x34,0x34,0x36,0x37,0x34,0x34,0x30,0x37,0x33,0x37,0x30,0x39,0x35,0x35,0x31,0x36,0x31,0x35] ∧
+    numVal {} [0x31,0x38,0x34,0x34,0x36,0x37,0x34,0x34,0x30,0x37,0x33,0x37,0x30,0x39,0x35,0x35,0x31,0x36,0x31,0x35] =
+      .num (.uint 18446744073709551615) := by
+  have h := (int_in_grammar {}).1 18446744073709551615 (by decide)
+  rwa [show JS.printNum {} (.uint 18446744073709551615) =
+    [0x31,0x38,0x34,0x34,0x36,0x37,0x34,0x34,0x30,0x37,0x33,0x37,0x30,0x39,0x35,0x35,0x31,0x36,0x31,0x35] from by decide +kernel] at h
+
+example : NumLit [0x2D,0x39,0x32,0x32,0x33,0x33,0x37,0x32,0x30,0x33,0x36,0x38,0x35,0x34,0x37,0x37,0x35,0x38,0x30,0x38] ∧
+    numVal {} [0x2D,0x39,0x32,0x32,0x33,0x33,0x37,0x32,0x30,0x33,0x36,0x38,0x35,0x34,0x37,0x37,0x35,0x38,0x30,0x38] =
+      .num (.sint (-9223372036854775808)) := by
+  have h := (int_in_grammar {}).2 (-9223372036854775808) (by decide) (by decide)
+  rw [show JS.printNum {} (.sint (-9223372036854775808)) =
+    [0x2D,0x39,0x32,0x32,0x33,0x33,0x37,0x32,0x30,0x33,0x36,0x38,0x35,0x34,0x37,0x37,0x35,0x38,0x30,0x38] from by decide +kernel] at h
+  simpa [C07.normInt] using h
+
+-- floats: -2.5 and 1e-7 (double), 3.4028235e38 is printed 3.402823466e38
+example : NumLit [0x2D, 0x32, 0x2E, 0x35] := by
+  have h := float_in_grammar {} 0xC004000000000000 9 (by decide) (by decide +kernel) (by decide +kernel)
+  rwa [show JS.writeFloat {} 0xC004000000000000 9 = [0x2D, 0x32, 0x2E, 0x35] from by decide +kernel] at h
+example : NumLit [0x31, 0x65, 0x2D, 0x37] := by
+  have h := float_in_grammar {} 0x3E7AD7F29ABCAF48 9 (by decide) (by decide +kernel) (by decide +kernel)
+  rwa [show JS.writeFloat {} 0x3E7AD7F29ABCAF48 9 = [0x31, 0x65, 0x2D, 0x37] from by decide +kernel] at h
+-- +Infinity is written `null`
+example : JS.writeFloat {} 0x7FF0000000000000 9 = [0x6E, 0x75, 0x6C, 0x6C] :=
+  nonfinite_is_null {} 0x7FF0000000000000 9 rfl rfl (by decide +kernel)
+
+theorem minus2p5 : denoteFloat {} 0xC004000000000000 9 = .num (.f32 0xC0200000) := by
+  have hl := float_in_grammar {} 0xC004000000000000 9 (by decide) (by decide +kernel) (by decide +kernel)
+  have hf : (SF.isNaN SF.b64 0xC004000000000000 || SF.isInf SF.b64 0xC004000000000000) = false := by decide +kernel
+  unfold SerG.denoteFloat
+  rw [hf, SerG.numVal_of_parse {} hl]
+  rw [show JS.writeFloat {} 0xC004000000000000 9 = [0x2D, 0x32, 0x2E, 0x35] from by decide +kernel]
+  have : parseNumber {} [0x2D, 0x32, 0x2E, 0x35] = .f32 0xC0200000 := by decide +kernel
+  simp [C07.numValue, this]
+
+/-- what `sampleDoc` = `{"a b":[1,"x\" y",-2.5],"c":{}}` denotes: itself, the double -2.5 read as the float -2.5 -/
+def sampleDenoted : Val :=
+  .obj [([0x61, 0x20, 0x62], .arr [.num (.uint 1), .str [0x78, 0x22, 0x20, 0x79], .num (.f32 0xC0200000)]),
+        ([0x63], .obj [])]
+
+theorem sample_denote : denote {} sampleDoc = sampleDenoted := by
+  simp [sampleDoc, sampleDenoted, SerG.denote, SerG.denoteE, SerG.denoteM, SerG.denoteNum, minus2p5, lastWins, setMember]
+
+theorem sample_hyps : C07.RawFree sampleDoc ∧ C07.IntsInRange sampleDoc ∧ C07.StrsWithin (({} : Cfg).maxStrLen) sampleDoc ∧
+    PrintableStrs sampleDoc ∧ depth sampleDoc ≤ 2 := by
+  refine ⟨?_, ?_, ?_, ?_, ?_⟩
+  · simp [C07.RawFree, sampleDoc, C07.AllV, C07.AllE, C07.AllM, C07.RawFreeS]
+  · simp [C07.IntsInRange, sampleDoc, C07.AllV, C07.AllE, C07.AllM, C07.IntOkS]
+  · simp [C07.StrsWithin, sampleDoc, C07.AllV, C07.AllE, C07.AllM, C07.StrOkS]
+  · simp only [SerG.PrintableStrs, sampleDoc, C07.AllV, C07.AllE, C07.AllM, SerG.PrintableS]
+    exact ⟨by decide, ⟨trivial, by decide, trivial, trivial⟩, by decide, trivial, trivial⟩
+  · simp [sampleDoc, depth, depthList, depthMembers]
+
+def sampleCompact : List Byte :=
+  [0x7B, 0x22,0x61,0x20,0x62,0x22, 0x3A, 0x5B, 0x31, 0x2C, 0x22,0x78,0x5C,0x22,0x20,0x79,0x22, 0x2C, 0x2D,0x32,0x2E,0x35,
+   0x5D, 0x2C, 0x22,0x63,0x22, 0x3A, 0x7B,0x7D, 0x7D]
+def samplePretty : List Byte :=
+  [0x7B, 0x0D,0x0A, 0x20,0x20, 0x22,0x61,0x20,0x62,0x22, 0x3A,0x20, 0x5B, 0x0D,0x0A,
+   0x20,0x20,0x20,0x20, 0x31, 0x2C, 0x0D,0x0A,
+   0x20,0x20,0x20,0x20, 0x22,0x78,0x5C,0x22,0x20,0x79,0x22, 0x2C, 0x0D,0x0A,
+   0x20,0x20,0x20,0x20, 0x2D,0x32,0x2E,0x35, 0x0D,0x0A,
+   0x20,0x20, 0x5D, 0x2C, 0x0D,0x0A,
+   0x20,0x20, 0x22,0x63,0x22, 0x3A,0x20, 0x7B,0x7D, 0x0D,0x0A, 0x7D]
+theorem sample_compact : compact {} sampleDoc = sampleCompact := by decide +kernel
+theorem sample_pretty : pretty {} 0 sampleDoc = samplePretty := by decide +kernel
+
+-- the compact text `{"a b":[1,"x\" y",-2.5],"c":{}}` is a JSON value denoting the document
+example : Value {} 2 sampleCompact sampleDenoted := by
+  obtain ⟨h1, h2, h3, h4, h5⟩ := sample_hyps
+  have h := compact_in_grammar {} 2 sampleDoc rfl rfl h1 h2 h3 h4 h5
+  rw [sample_denote] at h
+  rwa [sample_compact] at h
+
+-- and so is the pretty text (CR LF line ends, two-space indentation)
+example : Value {} 2 samplePretty sampleDenoted := by
+  obtain ⟨h1, h2, h3, h4, h5⟩ := sample_hyps
+  have h := pretty_in_grammar {} 2 sampleDoc rfl rfl h1 h2 h3 h4 h5
+  rw [sample_denote] at h
+  rwa [sample_pretty] at h
+
+-- the deserializer reads the compact text back as that document (31 bytes)
+example : JD.run {} 2 sampleCompact = (.ok, sampleDenoted, 31) := by
+  obtain ⟨h1, h2, h3, _, h5⟩ := sample_hyps
+  have h := compact_parses_back {} 2 sampleDoc rfl rfl rfl h1 h2 h3 h5
+  rw [sample_denote, sample_compact] at h
+  exact h
+-- independent check by evaluation of the parser model on the explicit bytes
+example : (JD.run {} 2 sampleCompact).1 = .ok ∧ (JD.run {} 2 sampleCompact).2.2 = 31 := by decide +kernel
+
+-- a document with a repeated key and non-finite floats: [NaN,{"k":1,"k":-Infinity}] is written [null,{"k":1,"k":null}]
+-- and denotes [null,{"k":null}]
+example : denote {} (.arr [.num (.f64 0x7FF8000000000000), .obj [([0x6B], .num (.uint 1)), ([0x6B], .num (.f64 0xFFF0000000000000))]]) =
+    .arr [.null, .obj [([0x6B], .null)]] := by
+  have a : denoteFloat {} 0x7FF8000000000000 9 = .null := by
+    unfold SerG.denoteFloat; rw [show (SF.isNaN SF.b64 0x7FF8000000000000 || SF.isInf SF.b64 0x7FF8000000000000) = true from by decide +kernel]; rfl
+  have b : denoteFloat {} 0xFFF0000000000000 9 = .null := by
+    unfold SerG.denoteFloat; rw [show (SF.isNaN SF.b64 0xFFF0000000000000 || SF.isInf SF.b64 0xFFF0000000000000) = true from by decide +kernel]; rfl
+  simp [SerG.denote, SerG.denoteE, SerG.denoteM, SerG.denoteNum, a, b, lastWins, setMember]
+
+end Grammar
 
 end C02
